@@ -97,7 +97,7 @@ impl Property for C01 {
     }
     fn rule(&self) -> String {
         "all token strings up to a length bound over a 22-token alphabet and random Unicode strings mixing token fragments, quotes, comment markers, multi-byte and whitespace characters (up to 4096 chars), each through tokenize, precompile, \
-         the iterators, Display/Debug, mutable / read-only / typed evaluation in HashMapContext (extreme integer bound), EmptyContext and EmptyContextWithBuiltinFunctions; every builtin on every pool value, pairs and triples; the maximal nestings of a 4096-char input in a subprocess with an 8 MiB stack; \
+         the iterators, Display/Debug, mutable / read-only / typed evaluation in HashMapContext (extreme integer bound), EmptyContext and EmptyContextWithBuiltinFunctions; every builtin on every pool value and pair plus its own edge family (every shift amount -70..70, every index pair over multi-byte strings, min / max over the edge pools, membership matrices); the maximal nestings of a 4096-char input in a subprocess with an 8 MiB stack; \
          in the dev profile (overflow checks on; thorough: also release). A case passes if nothing panics or aborts. non-trivial = the input builds a tree; distinct = distinct input"
             .into()
     }
@@ -136,6 +136,16 @@ impl Property for C01 {
             }
             cases.push(c01_case(&s, "random"));
         }
+        // long names and long string literals with a multi-byte character at every byte offset up to 70 (messages that
+        // abbreviate, pad or slice what they quote), unbound and bound, as variable, function and string
+        for k in 0..70 {
+            for ch in ["é", "€", "😀"] {
+                let name = format!("{}{}{}", "a".repeat(k), ch, "b".repeat(3));
+                for src in [name.clone(), format!("{}(1)", name), format!("{} = 1; {} + true", name, name), format!("\"{}\" + 1", name), format!("len({})", name)] {
+                    cases.push(c01_case(&src, "long-names"));
+                }
+            }
+        }
         // operators on every pair of edge integers and on mixed pairs (overflow, MIN / -1, MIN % -1, shifts of the exponent…)
         let ints = int_pool();
         for op in ["+", "-", "*", "/", "%", "^", "<", "=="] {
@@ -166,6 +176,7 @@ impl Property for C01 {
                 }
             }
         }
+        cases.extend(super::builtins::targeted_cases());
         (cases, false)
     }
     fn judge(&self, case: &Case, out: &Outcome) -> Verdict {
@@ -267,7 +278,7 @@ impl Property for C15 {
     }
     fn rule(&self) -> String {
         "compile-time Send + Sync assertions for the 8 public types; 2..16 threads share one Arc<Node> per program and one Arc<context> of each kind (HashMapContext with variables and user functions, EmptyContext, EmptyContextWithBuiltinFunctions) \
-         and evaluate every program of a batch concurrently: each result must equal the sequential result; the sequential read-only results also go through the model correspondence. non-trivial = evaluation succeeds; distinct = distinct program"
+         and evaluate every program of a batch (incl. 80 programs over the optional regex builtins with several patterns in flight) concurrently: each result must equal the sequential result; the sequential read-only results also go through the model correspondence. non-trivial = evaluation succeeds; distinct = distinct program"
             .into()
     }
     fn cases(&self, tier: Tier, rng: &mut Rng) -> (Vec<Case>, bool) {
@@ -304,7 +315,14 @@ impl Property for C15 {
         Verdict::Pass { nontrivial: if r.starts_with("ok") { Some(case.human.clone()) } else { None }, class: class_of(r) }
     }
     fn extra(&self, tier: Tier, rng: &mut Rng) -> (usize, Vec<(String, String)>, Vec<String>) {
-        let progs = shared_programs(rng, if tier == Tier::Quick { 400 } else { 4000 });
+        let mut progs = shared_programs(rng, if tier == Tier::Quick { 400 } else { 4000 });
+        // the optional `regex` builtins (feature enabled in the harness build; not part of the Lean model): several
+        // patterns in flight at once, so that any state shared between calls shows
+        for i in 0..40 {
+            let (p, q) = (["^a+$", "^b+$", "[0-9]+", "a|b", "^$", "(a)(b)?"][i % 6], ["^b+$", "[a-c]+", "^a", "x*", "a{2,}"][i % 5]);
+            progs.push(format!("(str::regex_matches(\"aaaa\", \"{}\"), str::regex_matches(\"aaaa\", \"{}\"), str::regex_replace(\"abc123def\", \"{}\", \"#\"))", p, q, p));
+            progs.push(format!("if(str::regex_matches(\"ab{}\", \"{}\"), str::regex_replace(\"x1y22\", \"{}\", \"-\"), \"no\")", i, q, p));
+        }
         let trees: Vec<(String, Arc<Node>)> = progs
             .iter()
             .filter_map(|p| build_operator_tree::<DefaultNumericTypes>(p).ok().map(|t| (p.clone(), Arc::new(t))))
@@ -442,6 +460,25 @@ impl Property for C16 {
         for s in ["\"a\\\"b\"", "\"\\q\"", "/*", "1 /* c */ + 2", "ä + 😀", "&", "a\n+\tb"] {
             srcs.push(s.to_string());
         }
+        // sequences of near-identical expressions (same text up to whitespace inside strings / around comments), and signed numerals
+        for s in [
+            "x == \"a b\"", "x == \"a  b\"", "x == \"a\tb\"", "1 //\n+ 2", "1 // + 2", "1 // )", "1 //\n)", "-5", "+5", "-9223372036854775808", " 7 ", "7", "0x10", "1e3",
+            "a  +  b", "a + b", "a\n+\nb",
+        ] {
+            srcs.push(s.to_string());
+        }
+        // inputs whose error message depends on what follows the offending character, with and without surrounding blanks
+        for s in ["a & ", "a |\n", "& ", " &", "a & b", "a | b", "a &", "|", "| ", "a &\t", "a &&", "a && ", "\"abc ", " \"abc", "\"abc\\", "1 /* ", " /*", "a ! ", "a =", "a = "] {
+            srcs.push(s.to_string());
+        }
+        let padded: Vec<String> = srcs.iter().take(600).flat_map(|s| [format!(" {} ", s), format!("{}\n", s), format!("\t{}", s)]).collect();
+        srcs.extend(padded);
+        let ws_variants: Vec<String> = srcs
+            .iter()
+            .take(400)
+            .map(|s| s.replace(' ', if rng.chance(1, 2) { "  " } else { "\n" }))
+            .collect();
+        srcs.extend(ws_variants);
         for s in &srcs {
             n += 1;
             let direct = build_operator_tree::<DefaultNumericTypes>(s);
@@ -477,7 +514,7 @@ impl Property for C16 {
                 let v = if rng.chance(1, 2) { rng.pick(&special).clone() } else { random_value(rng, 2) };
                 // a NaN with a payload is not claimed (ron prints NaN as text): use the canonical one
                 let v = canon_nan(v);
-                let name = ["a", "b", "ä b", "", "x\"y", "min", "c1", "😀"][(i + rng.below(3)) % 8];
+                let name = ["a", "b", "ä b", "", "x\"y", "min", "c1", "😀", "A", "Ratio", "ratio", "Δt", "δt", "N", "n"][(i + rng.below(7)) % 15];
                 let _ = c.set_value(name.to_string(), v);
             }
             if rng.chance(1, 2) {
